@@ -317,3 +317,14 @@ Proof.
   rewrite forallb_forall in Hp. specialize (Hp o Hin). unfold paren_okb in Hp.
   apply String.eqb_eq in Hp. exact Hp.
 Qed.
+
+(* ---- a chain as an operand of a chain ---- *)
+Lemma as_operand_paren c k : is_ok (render_setop c k false false) = true -> paren_okb k (as_operand c) = true.
+Proof.
+  intros H. unfold paren_okb, as_operand. cbn [o_text].
+  pose proof (render_subquery c k) as R.
+  destruct (render_setop c k false false) as [t| |] eqn:E; try discriminate.
+  destruct R as [R _]. rewrite R. apply String.eqb_refl.
+Qed.
+Lemma as_operand_arity c : arity (as_operand c) = arity (s_base c).
+Proof. reflexivity. Qed.
